@@ -546,7 +546,7 @@ func (d Driver) Run(c *core.Ctx) error {
 	}
 	// narrow justified paragraphs of 9..14 words at 20..23 mm: lines that must be shrunk, many fitness classes in play
 	for _, nt := range []int{9, 11, 12, 14} {
-		run(tlc.Opts{Module: "Layout", Config: gcfg("para", nt, c.Pick(500, 5000), maxw, "{0}", false), Seed: c.Seed + int64(100+nt)})
+		run(tlc.Opts{Module: "Layout", Config: gcfg("para", nt, c.Pick(250, 4000), maxw, "{0}", false), Seed: c.Seed + int64(100+nt)})
 	}
 	wg.Wait()
 	c.Count(n, nontrivial, 0)
